@@ -2,6 +2,7 @@ package main
 
 import (
 	"bufio"
+	"encoding/binary"
 	"fmt"
 	"os"
 	"sort"
@@ -150,7 +151,16 @@ func flApply(f *bolt.VerifFreelist, backend string, o flOp) (obs string, ok bool
 		}
 		cnt := uint64(img[10]) | uint64(img[11])<<8
 		flags := uint64(img[8]) | uint64(img[9])<<8
-		extra = fmt.Sprintf(" rb=%s imgc=%d imgf=%d imglen=%d same=%v", csv(rbs[0]), cnt, flags, len(img), same)
+		// the u64 array that follows the page header, as far as Write filled it (count convention left to the reader)
+		nids := f.Count()
+		if nids >= 0xFFFF {
+			nids++
+		}
+		body := make([]uint64, 0, nids)
+		for i := 0; i < nids && 16+8*i+8 <= len(img); i++ {
+			body = append(body, binary.LittleEndian.Uint64(img[16+8*i:]))
+		}
+		extra = fmt.Sprintf(" rb=%s imgc=%d imgf=%d imglen=%d same=%v body=%s", csv(rbs[0]), cnt, flags, len(img), same, csv(body))
 	case "reload":
 		img := f.Write(4096)
 		f.Reload(img)
